@@ -56,7 +56,7 @@ CHECKS = {
    ref="DESIGN.md 7 C08"),
  "C09": dict(
    text="Theorems (closed): C09_attempt_no_crash - wherever the specification is defined an attempt ends in SUCCESS or FAILED (every VM crash site is an explicit Crashed result "
-        "of the model and is unreachable); C09_find_returns - for call-free, predicate-free patterns `find all` returns a match list on every text; C09_find_returns_when_defined; UNCONDITIONALLY: C09_well_formed_code_never_crashes - the code compiled from any well-formed resolved pattern never crashes the VM, for any command shape, text and step budget, whether or not the search terminates or the specification is defined (named loops, back-references, unguarded recursion included; continuation-passing step-indexed proof); C09_generated_patterns_well_formed - every pattern the generator resolves from any source text the parser accepts is well formed (calls go to subroutines sitting at that program counter inside the same pattern; `not in` sizes are non-negative), provided stored predicates do not crash; C09_accepted_programs_never_crash - the two combined, from source text to `find`; the full statement (process code included) is false of the faithful model: C09_refuted_division_by_zero and C09_refuted_branch_dependent_type exhibit accepted programs that crash (the known findings K23, K24, by vm_compute). "
+        "of the model and is unreachable); C09_find_returns - for call-free, predicate-free patterns `find all` returns a match list on every text; C09_find_returns_when_defined; UNCONDITIONALLY: C09_well_formed_code_never_crashes - the code compiled from any well-formed resolved pattern never crashes the VM, for any command shape, text and step budget, whether or not the search terminates or the specification is defined (named loops, back-references, unguarded recursion included; continuation-passing step-indexed proof); C09_generated_patterns_well_formed - every pattern the generator resolves from any source text the parser accepts is well formed (calls go to subroutines sitting at that program counter inside the same pattern; `not in` sizes are non-negative), provided stored predicates do not crash; C09_accepted_programs_never_crash - the two combined, from source text to `find`; C09_run_never_crashes_unless_process_code_does - the whole of Run (all commands, replacers, transforms) on every accepted program never crashes unless its process code (predicates, transforms) crashes by itself; the full statement (process code included) is false of the faithful model: C09_refuted_division_by_zero and C09_refuted_branch_dependent_type exhibit accepted programs that crash (the known findings K23, K24, by vm_compute). "
         "Tie: generated + corpus programs on every prefix of texts and the empty text, byte strings with truncated/stray UTF-8 at every distance from the end, every environment name x operator x operand type in transforms and predicates; any panic/hang of Run on an accepted program is reported.",
    note="Known findings (printed, not failed): K23 integer division by zero in process code; K24 a process variable whose static type depends on the branch taken. Process-code safety is the "
         "checker's business (C12). RunFiles/reader side: C06/C07.",
